@@ -36,11 +36,16 @@ CHECKS = {
             "bounded run-time contract check against a plain-data model",
             "DESIGN.md §6 C03/C04"),
     "C05": ("exploration",
-            BOUNDED % "05" + "Merger.merge_with vs spec.merge over document pairs x all 180 policy mixes x per-path rules/keys; any non-MergeException is a violation.",
+            BOUNDED % "05" + "Merger.merge_with vs spec.merge over document pairs x all 180 policy mixes x per-path rules (containers and scalars) / identity keys; any "
+            "non-MergeException is a violation.  Deductive part (proved, 230 VCs): the configuration the policies go through -- MergerConfig._get_config_for "
+            "(a rule governs exactly the node it names: equal value, SAME parent object, same reference; iteration by iteration), the four policy ladders "
+            "(per-path rule > command line > [defaults] > built-in) and aoh_merge_key.  The merge algorithms themselves are bounded only.",
             "bounded run-time contract check against an executable merge spec",
             "DESIGN.md §6 C05, Appendix C"),
     "C06": ("exploration",
-            BOUNDED % "06" + "Differ reports checked clause by clause (entry truth, coverage, reflexivity, exactly-once accounting, non-SAME iff data differ) over document pairs x modes.",
+            BOUNDED % "06" + "Differ reports checked clause by clause (entry truth, coverage, reflexivity, exactly-once accounting, non-SAME iff data differ) over document pairs x modes.  "
+            "Deductive part (proved, 162 VCs): DifferConfig._get_config_for (rule scope), the array / AoH mode ladders and aoh_diff_key; the comparison "
+            "algorithms are bounded only.",
             "bounded run-time contract check of the diff clauses",
             "DESIGN.md §6 C06"),
     "C07": ("exploration",
@@ -75,7 +80,8 @@ CHECKS = {
             "DESIGN.md §6 C12"),
     "C13": ("exploration",
             BOUNDED % "13" + "definitional oracle for max/min/unique/distinct/has_child/parent/name over all short same-kind sequences, AoH and hashes-of-hashes. "
-            "Deductive part: the keyword dispatcher and SearchKeywordTerms.parameters are verified for safety (C15); the scans are assumed there.",
+            "Deductive part: the keyword dispatcher, SearchKeywordTerms.parameters, has_child (with its two helpers: Array-of-Hashes pass-through with each element's own "
+            "coordinates), name and parent (climb loop invariant) are verified for safety; max / min / unique / distinct are assumed there (bounded only).",
             "bounded run-time contract check against definitional oracles",
             "DESIGN.md §6 C13"),
     "C14": ("proof",
@@ -101,9 +107,12 @@ CHECKS = {
             "DESIGN.md §6 C16"),
     "C17": ("fault_enumeration",
             "Fault enumeration (bounded): every pre-write failure cause of yaml-set / yaml-merge leaves the directory byte-identical; for successful edits a fault "
-            "is injected at the k-th I/O call of the save sequence for every k, with/without --backup and a stale .bak: target or .bak keeps the original bytes. "
-            "The ghost-state ordering proof of DESIGN §6 C17 is not yet attached, so nothing is claimed as proved.",
-            "fault enumeration at every I/O call of the real save sequences (bounded stand-in for the ghost-state ordering obligations)",
+            "is injected at the k-th I/O call of the save sequence for every k (before / partial / partial-unflushed, OSError and AssertionError), with/without "
+            "--backup and a stale .bak: target or .bak keeps the original bytes.  Deductive part (proved, 1812 VCs): the ORDER of the save sequences of "
+            "yaml_set.write_output_document and yaml_merge.write_output_document over ghost events of the library calls (stale .bak looked for, removed only when "
+            "it exists, target copied to .bak, and only then the output opened / saved; no .bak touched without --backup).  What each call does to the disk and "
+            "what a half-failed call leaves behind is the fault enumeration's part.",
+            "fault enumeration at every I/O call of the real save sequences + contract-based proof of the order of those calls (ghost events, pyvc)",
             "DESIGN.md §6 C17"),
     "C18": ("proof",
             "Driver structure proved for all stream lengths: merge_condense_all, merge_across, merge_matrix and merge_docs are verified iteration by iteration "
